@@ -653,6 +653,28 @@ def run_C11(tier, rng, chk):
         hist.append(("c11_hist_%d" % i, L))
     out = chk.run_stream(hist, prop="C11")
     res.append(fam("histories(PI changing between 1A groups, damaged block A, other groups in between)", hist, out))
+    # "(subject to the extended check)": the country is looked up with the PI ACCEPTED at that moment,
+    # which under the check is not the PI the group itself carries; ECC and country are compared with
+    # the model (whose behaviour under the check is the theorem C09_observer)
+    hx = []
+    for i in range(scale(tier, 60, 400)):
+        gg = Gen(rng)
+        gg.pis = [0x9201, 0x1201, 0x9201, 0x3201, 0xF201]
+        gg.eccs = [0xE1, 0xE1, 0xE0, 0xE2, 0xA0]
+        L = gg.preamble(register="random", ext=True)
+        for _ in range(scale(tier, 100, 160)):
+            x = rng.random()
+            if x < 0.03:
+                L.append("0 C")
+            else:
+                l = gg.parse_line(rng.choice(["1A", "1A", "1A", "0A", "2A", "1B"]), rng.choice([(0, 0, 0, 0)] * 5 + [(1, 0, 0, 0), (0, 1, 0, 0)]))
+                L.append(l)
+                if rng.random() < 0.35:
+                    L.append(l)
+        hx.append(("c11_ext_%d" % i, L))
+    out = chk.run_stream(hx, prop="-")
+    res.append(fam("extended check(1A groups whose own PI is not the accepted one: alternating PIs, same ECC, repeated and non-consecutive)", hx, out,
+                   observer="-", owned_keys=["ecc", "country"]))
     return res
 
 
